@@ -44,6 +44,11 @@ package arbitrator
 //     the environment delivered its events: nothing foreign is hidden from the arbitrator) and,
 //     inside a round, never or after a random number of the arbitrator's own successful writes.
 //     The oracle always reads the server.
+//   * Every successful write of a PodMigrationJob produces an informer Update event that reaches the
+//     real arbitrationHandler - also the arbitrator's own writes (the passed annotation, the Failed
+//     status): a moment after the write, i.e. before the arbitrator's next read of the API (fast
+//     informer; in read-lag mode together with the cache catching up), or after the round. The
+//     event carries the stored object (phase "" for a job whose status was never written).
 //   * Workloads are ReplicaSet / StatefulSet / Job kinds owning their pods directly (no Deployment
 //     indirection); the fake controller finder answers GetPodsForRef with the API pods owned by the
 //     workload UID in the namespace and the workload's expected replicas of the moment.
@@ -362,25 +367,74 @@ type c16aWorld struct {
 	// read lag: the arbitrator reads from cache, writes to cl
 	lag             bool
 	cache           client.Client
-	refreshAfter    int // inside the current round: rebuild the cache after that many own writes; 0 = never
-	ownWrites       int // successful writes of the arbitrator in the current round
-	staleOwnWrites  int // ... of which the cache has not seen yet
-	staleAdmissions int // passed-annotation updates of this round the cache has not seen yet
+	refreshAfter    int  // inside the current round: rebuild the cache after that many own writes; 0 = never
+	ownWrites       int  // successful writes of the arbitrator in the current round
+	staleOwnWrites  int  // ... of which the cache has not seen yet
+	staleAdmissions int  // passed-annotation updates of this round the cache has not seen yet
+	refreshDue      bool // the cache catches up at the arbitrator's next read
+
+	// informer Update events for the arbitrator's own writes, not yet delivered to the handler
+	ownEvents   []*sev1alpha1.PodMigrationJob
+	eventsEarly bool // this round: delivered before the arbitrator's next read (otherwise after the round)
 }
 
-// c16aLagClient is what the arbitrator gets in read-lag mode: everything goes to the server client
-// except Get and List, which are served from the world's current cache client.
+// c16aLagClient is the arbitrator's client: everything goes to the server client; in read-lag mode
+// Get and List are served from the world's current cache client. Every read first lets the
+// informer do what is due (cache catch-up, delivery of update events).
 type c16aLagClient struct {
 	client.Client
 	w *c16aWorld
 }
 
 func (l *c16aLagClient) Get(ctx context.Context, key client.ObjectKey, obj client.Object, opts ...client.GetOption) error {
+	l.w.beforeArbitratorRead()
+	if !l.w.lag {
+		return l.Client.Get(ctx, key, obj, opts...)
+	}
 	return l.w.cache.Get(ctx, key, obj, opts...)
 }
 
 func (l *c16aLagClient) List(ctx context.Context, list client.ObjectList, opts ...client.ListOption) error {
+	l.w.beforeArbitratorRead()
+	if !l.w.lag {
+		return l.Client.List(ctx, list, opts...)
+	}
 	return l.w.cache.List(ctx, list, opts...)
+}
+
+func (w *c16aWorld) beforeArbitratorRead() {
+	if !w.inRound {
+		return
+	}
+	if w.lag {
+		if w.refreshDue {
+			w.refreshDue = false
+			w.c.Op("  [cache] informer catches up after %d own writes", w.ownWrites)
+			w.refreshCache()
+			w.flushOwnEvents(true)
+		}
+		return
+	}
+	if w.eventsEarly {
+		w.flushOwnEvents(true)
+	}
+}
+
+// flushOwnEvents delivers the update events of the arbitrator's own writes to the real handler.
+func (w *c16aWorld) flushOwnEvents(withinRound bool) {
+	evs := w.ownEvents
+	w.ownEvents = nil
+	for _, j := range evs {
+		w.h.Update(context.TODO(), event.TypedUpdateEvent[client.Object]{ObjectOld: j, ObjectNew: j}, c16aQueue)
+		if withinRound {
+			w.c.Count("own_write_events_delivered_within_round", 1)
+		} else {
+			w.c.Count("own_write_events_delivered_after_round", 1)
+		}
+		if j.Status.Phase == "" && j.Annotations[AnnotationPassedArbitration] == "true" {
+			w.c.Count("own_admission_events_for_job_with_empty_phase", 1)
+		}
+	}
 }
 
 // refreshCache: the informer has caught up with the server.
@@ -419,7 +473,10 @@ func (w *c16aWorld) refreshCache() {
 }
 
 // ownWrite is called after every successful PodMigrationJob write issued while a round runs.
-func (w *c16aWorld) ownWrite(admission bool) {
+func (w *c16aWorld) ownWrite(name string, admission bool) {
+	if stored := w.getJob(name); stored != nil {
+		w.ownEvents = append(w.ownEvents, stored)
+	}
 	if !w.lag {
 		return
 	}
@@ -433,8 +490,7 @@ func (w *c16aWorld) ownWrite(admission bool) {
 		w.staleAdmissions++
 	}
 	if w.refreshAfter > 0 && w.ownWrites == w.refreshAfter {
-		w.c.Op("  [cache] informer catches up after %d own writes", w.ownWrites)
-		w.refreshCache()
+		w.refreshDue = true // a moment after the write: at the arbitrator's next read
 	}
 }
 
@@ -580,7 +636,7 @@ func c16aNewWorld(c *kit.Case, cfg *c16aCfg, lag bool) *c16aWorld {
 				w.podDirty = w.podDirty || !c16aIsJob(obj)
 				err := cl.Update(ctx, obj, opts...)
 				if err == nil && w.inRound && c16aIsJob(obj) {
-					w.ownWrite(obj.GetAnnotations()[AnnotationPassedArbitration] == "true")
+					w.ownWrite(obj.GetName(), obj.GetAnnotations()[AnnotationPassedArbitration] == "true")
 				}
 				return err
 			},
@@ -590,16 +646,15 @@ func c16aNewWorld(c *kit.Case, cfg *c16aCfg, lag bool) *c16aWorld {
 				}
 				err := cl.SubResource(sub).Update(ctx, obj, opts...)
 				if err == nil && w.inRound && c16aIsJob(obj) {
-					w.ownWrite(false)
+					w.ownWrite(obj.GetName(), false)
 				}
 				return err
 			},
 		}).
 		Build()
 
-	var acl client.Client = w.cl
+	var acl client.Client = &c16aLagClient{Client: w.cl, w: w}
 	if lag {
-		acl = &c16aLagClient{Client: w.cl, w: w}
 		w.refreshCache()
 	}
 	f := &filter{
@@ -1858,6 +1913,9 @@ func (w *c16aWorld) envStep() {
 			}
 			j.Labels["touched"] = "true"
 			w.must(w.cl.Update(context.TODO(), j), "touch job")
+			if tj := w.getJob(j.Name); tj != nil {
+				w.h.Update(context.TODO(), event.TypedUpdateEvent[client.Object]{ObjectOld: tj, ObjectNew: tj.DeepCopy()}, c16aQueue)
+			}
 			c.Op("env: user labels the un-arbitrated job %s; the update event triggers the reconciler", j.Name)
 			w.promote(s, w.getJob(j.Name), "touched")
 			c.Count("env_job_touched", 1)
@@ -1960,6 +2018,7 @@ func (w *c16aWorld) promote(s *c16aSnap, j *sev1alpha1.PodMigrationJob, why stri
 		j.Spec.PodRef.UID = p.UID
 		w.must(w.cl.Update(context.TODO(), j), "fill podRef uid")
 		j = w.getJob(j.Name)
+		w.h.Update(context.TODO(), event.TypedUpdateEvent[client.Object]{ObjectOld: j.DeepCopy(), ObjectNew: j.DeepCopy()}, c16aQueue)
 	}
 	nj := w.setPhase(j, sev1alpha1.PodMigrationJobRunning, "")
 	w.c.Op("env: reconciler starts job %s (%s) -> Running", nj.Name, why)
@@ -2027,7 +2086,11 @@ func TestVerifC16ArbitrationRounds(t *testing.T) {
 						w.refreshAfter = r.Range(1, 3)
 					}
 					c.Op("round %d: read lag, own writes visible after %d writes (0 = not within the round)", round, w.refreshAfter)
+				} else {
+					w.eventsEarly = r.Pct(50)
+					c.Op("round %d: update events of own writes reach the handler early=%v", round, w.eventsEarly)
 				}
+				w.refreshDue = false
 				w.inRound = true
 				w.a.doOnceArbitrate()
 				w.inRound = false
@@ -2039,6 +2102,7 @@ func TestVerifC16ArbitrationRounds(t *testing.T) {
 					}
 					w.refreshCache() // informer catches up before anybody asks Filter
 				}
+				w.flushOwnEvents(false)
 				after := w.snapshot()
 				var res []string
 				for _, u := range waiting {
